@@ -2,8 +2,12 @@
 (***************************************************************************)
 (* Trace validation for C15.  One record per planted case, recorded by the *)
 (* harness (c15) from the real compiler:                                   *)
-(*   idx, kind, file, pos, shape   the case (cross universe: must equal    *)
-(*                                 Case(idx), re-derived HERE)             *)
+(*   idx, kind, file, pos, shape,  the case (cross universe: must equal    *)
+(*   rel                           Case(idx), re-derived HERE)             *)
+(*   leaf, twin                    the texts of leaf.sy and twin.sy, the   *)
+(*                                 modules colliding names are imported    *)
+(*                                 from (their layout must be the one the  *)
+(*                                 case's rel names: RelOK)                *)
 (*   path, text, marker            the file holding the planted construct: *)
 (*                                 its path, its text (non-ASCII shown as  *)
 (*                                 '@', char for char) and the 1-based     *)
@@ -23,7 +27,7 @@
 EXTENDS SyltDiag, Json, IOUtils
 
 VARIABLES k,    \* index of the record being validated
-          st    \* "run" | "ok" | "fail" | "basebad"
+          st    \* "new" | "run" | "ok" | "fail" | "basebad"
 
 tvars == <<text, pos, toks, ln, k, st>>
 
@@ -33,13 +37,14 @@ Universe == IOEnv.UNIVERSE        \* "cross": records are exactly the applicable
                                   \* "part" : records are some applicable cases (controls, replays)
                                   \* "free" : random variations, the case fields are taken from the record
 
-CaseOf(r) == [kind |-> r.kind, file |-> r.file, pos |-> r.pos, shape |-> r.shape]
+CaseOf(r) == [kind |-> r.kind, file |-> r.file, pos |-> r.pos, shape |-> r.shape, rel |-> r.rel]
 
 C == CaseOf(Rec[k])
 
 WellFormed(j) ==
     LET r == Rec[j] c == CaseOf(r) IN
-    /\ Assert(c.kind \in Range(Kinds) /\ c.file \in Range(Files) /\ c.pos \in Range(Poss) \cup {"nested"},
+    /\ Assert(c.kind \in Range(Kinds) /\ c.file \in Range(Files) /\ c.pos \in Range(Poss) \cup {"nested"}
+                  /\ c.rel \in Range(Rels),
               <<"record outside the dimensions", j, c>>)
     /\ Assert(Applicable(c), <<"record for an inapplicable case", j, c>>)
     /\ Assert(r.path = PathOf(c.file), <<"path does not belong to the file class", j, r.path>>)
@@ -47,6 +52,7 @@ WellFormed(j) ==
     /\ Assert(DefSpellings(c.kind) # {} =>
                  (r.marker \in Sites(r.text, c.kind) /\ Cardinality(Sites(r.text, c.kind)) = 2),
               <<"a duplicate needs exactly two definition sites", j, c>>)
+    /\ Assert(RelOK(c, r.text, r.leaf, r.twin), <<"imported modules are not laid out as rel says", j, c>>)
     /\ Universe \in {"cross", "part"} =>
           /\ Assert(r.idx \in 1..NCases /\ c = Case(r.idx), <<"universe mismatch at record", j, c>>)
           /\ Assert(ShapeOK(c, r.text, r.marker), <<"preceding text does not have the named shape", j, c>>)
@@ -55,14 +61,21 @@ WellFormed(j) ==
           /\ Assert(j > 1 => r.idx > Rec[j - 1].idx, <<"records not in index order", j>>)
     /\ Assert((r.res = "err") = (r.eline > 0) /\ r.res \in {"ok", "err", "panic"}, <<"malformed observation", j>>)
 
+\* (TLC computes initial states in one thread: the costly well-formedness checks and the expectation are a step)
 TraceInit ==
     /\ k \in 1..N
-    /\ WellFormed(k)
     /\ text = Rec[k].text
     /\ pos = Rec[k].marker
     /\ toks = <<>>
-    /\ ln = ExpectedLine(C, text, pos)
-    /\ st = "run"
+    /\ ln = 0
+    /\ st = "new"
+
+TraceCheck ==
+    /\ st = "new"
+    /\ WellFormed(k)
+    /\ ln' = ExpectedLine(C, text, pos)
+    /\ st' = "run"
+    /\ UNCHANGED <<text, pos, toks, k>>
 
 Obs == Verdict(C, ln, Rec[k].res, Rec[k].efile, Rec[k].eline)
 
@@ -87,15 +100,15 @@ TraceReject ==
                                   expected_line |-> ln])>>)
     /\ UNCHANGED <<text, pos, toks, ln, k>>
 
-TraceNext == TraceBaseRejected \/ TraceConforms \/ TraceReject
+TraceNext == TraceCheck \/ TraceBaseRejected \/ TraceConforms \/ TraceReject
 
 TraceSpec == TraceInit /\ [][TraceNext]_tvars
 
-\* Evaluated in every state of every validated record.  text, pos and ln never change after TraceInit, so the
+\* Evaluated in every state of every validated record.  text and pos never change, ln only in TraceCheck, so the
 \* (expensive, character-by-character) re-derivations are evaluated in the first state of each record only.
 TraceInv ==
-    /\ st \in {"run", "ok", "fail", "basebad"}
-    /\ pos \in 1..Len(text) /\ ln >= 1
+    /\ st \in {"new", "run", "ok", "fail", "basebad"}
+    /\ pos \in 1..Len(text) /\ (st # "new" => ln >= 1)
     /\ st = "run" =>
           LET op == OffendingPos(C, text, pos)
               lp == LineOf(text, pos)
